@@ -318,6 +318,26 @@ static void fixed(void) {
     if (handles_open() != 0) { vh_violation("C20:handle:stream-left-open-at-the-end", "handle open after destruct"); memset(open_handles, 0, sizeof open_handles); }
     vh_count("stack_file_lifecycles");
   }
+  /* the end of a with block (and stop) is a close like any other: on a File that is not open any more it raises
+     IOError -- the body closed it, it was never opened, or it had been closed before */
+  for (int variant = 0; variant < 4; variant++) {
+    var f = variant == 1 ? (var)new(File) : (var)new(File, $S(path), $S("r"));
+    var exc = NULL;
+    vh.oplen = 0; vh.oplog[0] = 0; vh.nops = 0;
+    vh_op("with / stop on a File that is not open, variant %d", variant);
+    switch (variant) {
+      case 0: VH_CATCH(({ with (g in f) { sclose(g); } }), exc); break;           /* the body closes it */
+      case 1: VH_CATCH(({ with (g in f) { (void)g; } }), exc); break;             /* never opened */
+      case 2: sclose(f); VH_CATCH(({ with (g in f) { (void)g; } }), exc); break;  /* closed before */
+      default: sclose(f); VH_CATCH(stop(f), exc); break;
+    }
+    vh_evals(2);
+    if (exc != IOError) { vh_violation("C20:closed:end-of-with-block-did-not-raise-ioerror", "variant %d: leaving a with block / stop on a File that is not open gave %s", variant, vh_exc_name(exc)); }
+    closed_file_ops(f, "after a with block on a closed File");
+    if (handles_open() != 0) { vh_violation("C20:handle:stream-left-open-at-the-end", "handle open after the with block"); memset(open_handles, 0, sizeof open_handles); }
+    del(f);
+    vh_count("with_blocks_on_files_that_are_not_open");
+  }
   /* sclose twice, del after sclose */
   {
     var f = new(File, $S(path), $S("r"));
